@@ -413,13 +413,30 @@ def sx_mod_str(tmpl, args):
     return out
 
 
-def sx_format_sstr(tmpl, *args):
-    parts = tmpl.split('{}')
-    if len(parts) != len(args) + 1:
-        raise Inconclusive("format template %r not modelled" % tmpl)
-    out = SStr.of(parts[0])
-    for a, p in zip(args, parts[1:]):
-        out = out + (a if isinstance(a, SStr) else str(a)) + p
+def sx_format_sstr(tmpl, *args, **kw):
+    """str.format with SStr arguments: plain {} / {0} / {name} fields without conversion or spec"""
+    import string
+    out = SStr([])
+    auto = 0
+    for lit, field, spec, conv in string.Formatter().parse(tmpl):
+        out = out + lit
+        if field is None:
+            continue
+        if field == '':
+            a = args[auto]
+            auto += 1
+        elif field.isdigit():
+            a = args[int(field)]
+        elif field.isidentifier():
+            a = kw[field]
+        else:
+            raise Inconclusive("format field %r not modelled" % field)
+        if isinstance(a, SStr):
+            if spec or conv:
+                raise Inconclusive("format spec on SStr")
+            out = out + a
+        else:
+            out = out + format(a if conv is None else (str(a) if conv == 's' else repr(a)), spec or '')
     return out
 
 
